@@ -63,7 +63,11 @@ def run(rep, tier):
                'String values are in bijection with their Seq<char> views (trusted axiom); String obeys the HashSet key model (trusted axiom; vstd ships it for integers only)',
                'std HashSet behaves as vstd specifies (insert/contains)')
     verus.canary(rep)
-    u = build(rep)
+    try:
+        u = build(rep)
+    except rustsrc.LostAnchor as e:
+        verus.unspliceable(rep, 'C26', 'Ns::tmp.fresh_not_previously_defined', 'Ns::tmp / Ns::insert (crates/core/src/ns.rs)', e)
+        return
     obs = u.run(tier)
     for o in obs:
         rep.add(o)
